@@ -10,6 +10,7 @@ import time
 import traceback
 
 from . import loader
+from . import reference
 from .loader import AnalysisError, Program, norm_text
 from .schema import Schema
 from .pts import Interp
@@ -29,9 +30,9 @@ COMMON_TRUSTED = [
 
 
 class Obligation:
-  __slots__ = ('rule', 'where', 'module', 'function', 'construct', 'ok', 'why', 'chain', 'status')
+  __slots__ = ('rule', 'where', 'module', 'function', 'construct', 'ok', 'why', 'chain', 'status', 'undecided')
 
-  def __init__(self, rule, where, module, function, construct, ok, why, chain=None):
+  def __init__(self, rule, where, module, function, construct, ok, why, chain=None, undecided=None):
     self.rule = rule
     self.where = where
     self.module = module
@@ -40,7 +41,8 @@ class Obligation:
     self.ok = ok
     self.why = why
     self.chain = chain
-    self.status = 'ok' if ok else 'violation'
+    self.undecided = undecided      # reason why a failed shape rule is "cannot decide" rather than a violation
+    self.status = 'ok' if ok else ('undecided' if undecided else 'violation')
 
   def key(self, prop):
     return (prop, self.rule, self.module, self.function, self.construct)
@@ -69,6 +71,8 @@ class Ctx:
     self.notes = []
     self.unanalysed = []
     self._cache = {}
+    self._restruct = {}
+    self.robust = ()
     self._reflective_scan()
 
   # ---- engine access
@@ -91,7 +95,7 @@ class Ctx:
     return self.P.cls(fq)
 
   # ---- recording
-  def ob(self, rule, owner, node, ok, why, construct=None, chain=None):
+  def ob(self, rule, owner, node, ok, why, construct=None, chain=None, depends=()):
     """Record one rule instance.  owner: FuncInfo | ClassInfo | ModuleInfo."""
     mod = owner.module if hasattr(owner, 'qualname') else owner
     fn = owner.qualname if hasattr(owner, 'qualname') else '<module>'
@@ -100,9 +104,50 @@ class Ctx:
     if len(construct) > 300:
       construct = construct[:297] + '...'
     where = loader.loc(mod, node) if isinstance(node, ast.AST) else mod.rel
-    o = Obligation(rule, where, mod.rel, fn, construct, bool(ok), why, chain)
+    undec = None
+    if not ok and not self._robust(rule):
+      undec = self._restructured(owner, mod)
+      for dep in depends or ():       # other functions whose arrangement the rule reads
+        if undec is None and dep is not None and hasattr(dep, 'qualname'):
+          undec = self._restructured(dep, dep.module)
+    o = Obligation(rule, where, mod.rel, fn, construct, bool(ok), why, chain, undecided=undec)
     self.obligations.append(o)
     return o
+
+  def _robust(self, rule):
+    """Rules whose verdict does not depend on the arrangement of statements (ownership, order and tie analyses,
+    table folding, schema coverage, normal-form algebra...): listed by prefix in the rule module's ROBUST."""
+    return any(rule == r or rule.startswith(r + '/') or rule.startswith(r) and r.endswith('/') for r in self.robust)
+
+  def _restructured(self, owner, mod):
+    """Reason string if the owning function was restructured relative to the reference the shape rules were
+    confirmed on (sa/reference.py); None if it is (nearly) the same arrangement of statements."""
+    node = getattr(owner, 'node', None)
+    q = getattr(owner, 'qualname', None)
+    if os.environ.get('VERIF_NO_GATE'):      # diagnostic only (tools/seed_matrix.py --no-gate): measure what the gate hides
+      return None
+    if node is None or q is None or not isinstance(node, (ast.FunctionDef, ast.AsyncFunctionDef)):
+      return None
+    fi = getattr(owner, 'fi', owner)          # a canonicalised copy keeps the statement arrangement of the original
+    k = (mod.rel, q)
+    if k not in self._restruct:
+      r, d, known = reference.restructured(mod.rel, q, getattr(fi, 'node', node))
+      if not r:
+        # code moved into a helper the rules were never confirmed on (extract-function refactoring)
+        called = set()
+        for c in ast.walk(getattr(fi, 'node', node)):
+          if isinstance(c, ast.Call):
+            if isinstance(c.func, ast.Name):
+              called.add(c.func.id)
+            elif isinstance(c.func, ast.Attribute):
+              called.add(c.func.attr)
+        refd = reference.load().get('functions', {})
+        new = sorted(q2 for q2 in mod.all_functions if q2.split('.')[-1] in called and reference.key(mod.rel, q2) not in refd)
+        if new:
+          r, d = True, '%s statement-level edits and a call to the new function %s' % (d, new[0])
+      self._restruct[k] = ('%s was restructured (%s statement-level edits relative to the reference the rule was confirmed on)' % (q, d) if known else
+                           '%s is not among the functions the rule was confirmed on' % q) if r else None
+    return self._restruct[k]
 
   def require(self, cond, msg):
     if not cond:
@@ -167,15 +212,21 @@ def run_rules(prop, tier='quick', overlay=None, repo=None):
   variant).  Returns ctx; raises AnalysisError when undecidable."""
   mod = load_rules(prop)
   ctx = Ctx(prop, tier, overlay=overlay, repo=repo)
+  ctx.robust = tuple(getattr(mod, 'ROBUST', ()))
   ctx.P.check_floors()
   try:
     mod.run(ctx)
   except Exception as e:
     # an anchor that vanished *after* violations were already established does not mask them
-    if any(not o.ok for o in ctx.obligations):
+    if any(o.status == 'violation' for o in ctx.obligations):
       ctx.note('analysis stopped early (%s); the violations found before that point are the verdict' % e)
     else:
       raise
+  # failed shape rules in restructured functions: no verdict (unless real violations were found elsewhere)
+  und = [o for o in ctx.obligations if o.status == 'undecided']
+  if und and not any(o.status == 'violation' for o in ctx.obligations):
+    raise AnalysisError('cannot decide: %s; rule(s) %s no longer recognise the code (a shape rule that fails on a restructured function is not a violation)' % (
+        '; '.join(sorted(set(o.undecided for o in und))), ', '.join(sorted(set(o.rule for o in und)))))
   # floors guard against a vacuous *pass*; when violations were found they are the verdict
   if all(o.ok for o in ctx.obligations):
     for rule, n in getattr(mod, 'FLOORS', {}).items():
@@ -184,7 +235,7 @@ def run_rules(prop, tier='quick', overlay=None, repo=None):
 
 
 def violation_keys(ctx):
-  return set(o.key(ctx.prop) for o in ctx.obligations if not o.ok)
+  return set(o.key(ctx.prop) for o in ctx.obligations if o.status == 'violation')
 
 
 def write_evidence(prop, tier, seed, ctx, mod, wall, n_viol, known_lines, selftest=None, error=None):
@@ -192,9 +243,9 @@ def write_evidence(prop, tier, seed, ctx, mod, wall, n_viol, known_lines, selfte
   obs = ctx.obligations if ctx is not None else []
   rules = {}
   for o in obs:
-    r = rules.setdefault(o.rule, {'instances': 0, 'ok': 0, 'violated': 0, 'known': 0})
+    r = rules.setdefault(o.rule, {'instances': 0, 'ok': 0, 'violated': 0, 'known': 0, 'undecided': 0})
     r['instances'] += 1
-    r['ok' if o.status == 'ok' else ('known' if o.status == 'known' else 'violated')] += 1
+    r[{'ok': 'ok', 'known': 'known', 'undecided': 'undecided'}.get(o.status, 'violated')] += 1
   samples = []
   seen_rules = set()
   for o in obs:
@@ -269,7 +320,7 @@ def main_check(prop, tier='quick', seed=0, jobs=None):
     known_lines = []
     new = []
     for o in ctx.obligations:
-      if o.ok:
+      if o.ok or o.status == 'undecided':
         continue
       k = o.key(prop)
       ent = next((e for e in known.get('known', []) if known_match(e, k)), None)
